@@ -92,6 +92,9 @@ def syntax_error_report(rng):
 def random_text(rng):
     n = rng.randint(0, 400)
     alphabet = 'abc XYZ09<>&"\'{}#/\\~@:;=%\n\t\x00\x01\x1b\x7f\xe9☃'
+    if rng.chance(0.4):
+        # every kind of line boundary str.splitlines knows, not only LF
+        alphabet += '\r\x0b\x0c\x1c\x1d\x1e\x85\u2028\u2029'
     return ''.join(rng.pick(alphabet) for _ in range(n))
 
 
@@ -125,6 +128,13 @@ def gen_case(rng, n):
         text = rng.pick([b'Traceback (most recent call last):\n  File "x.py", line 1, in <module>\nValueError: <b>\n', b'\xff\xfe raw', b''])
     else:
         text = rng.pick([0, 42, 3.5])
+    if kind in ('traceback', 'syntax', 'concatenated') and rng.chance(0.2):
+        # the same report as a Windows console or a log shipper hands it over
+        text = text.replace('\n', rng.pick(['\r\n', '\r\n', '\r', '\n\x0c', '\u2028']))
+        if exp:
+            exp = (exp[0], exp[1].replace('\n', ' ')) if '\n' not in exp[1] else None
+        if exp is None and kind == 'traceback':
+            kind = 'random'
     fk = rng.pick(['none', 'empty', 'normal', 'long', 'hostile', 'site'])
     if fk == 'none':
         files = None
@@ -137,7 +147,10 @@ def gen_case(rng, n):
     elif fk == 'site':
         files = [traceback.__file__, '/srv/app/own.py', probe.__file__]
     else:
-        files = ['/srv/<vx7q8 c=3>/a.py', '/tmp/"><vx7q9>.py', "/x/' vx7qattr10='1.py", '/t/{tb_str}{#x}{/x}.py', '/é/☃.py', '/a b/c&d.py', '']
+        files = ['/srv/<vx7q8 c=3>/a.py', '/tmp/"><vx7q9>.py', "/x/' vx7qattr10='1.py", '/t/{tb_str}{#x}{/x}.py', '/é/☃.py', '/a b/c&d.py', '',
+                 # names that path clean-ups would rewrite: they are to be shown as given
+                 '/srv/app/<img src="http://cdn.example//x.png">.py', '/srv/./app/b.py', '/srv/app/pkg/../c.py', '/srv//app//d.py', '/srv/app/dir/',
+                 './rel/e.py', '<script src=//evil.example/x.js></script>.py', 'C:\\app\\f.py', '/srv/app/g.py ', '/srv/app/\u0065\u0301.py']
     path = rng.pick(['/', '/', '/anything', '/deep/er/path/', '/clastic_assets/', '/clastic_assets/nothing.css', '/clastic_assets/common.css',
                      '/<vx7q11>', '/%7Btb_str%7D', '/a//b', '/favicon.ico', '/clastic_assets/../flaw.py', '/clastic_assets//etc/hosts',
                      '/clastic_assets/js/../../x', '/clastic_assets/..', '/clastic_assets/%2e%2e/x'])
